@@ -18,8 +18,8 @@ PLANS = {
  "C06": P([("index_states", 50), ("roundtrip", 15), ("boundary", 38), ("boundary2", 10), ("sparse_boundary", 3), ("torn", 20), ("lastmeta", 16)],
           [("index_states", 1500), ("roundtrip", 300), ("boundary", 120), ("boundary2", 90), ("sparse_boundary", 30), ("lastmeta", 160)]),
  "C07": P([("format", 40), ("roundtrip", 25), ("assets", 2), ("reopen", 20), ("boundary_reader", 12)], [("format", 1200), ("roundtrip", 600), ("assets", 2), ("reopen", 300), ("boundary_reader", 100)]),
- "C08": P([("caches", 60)], [("caches", 2000)]),
- "C09": P([("caches_reopen", 40), ("caches_faults", 30)], [("caches_reopen", 1200), ("caches_faults", 1200)]),
+ "C08": P([("caches", 60), ("caches_rebuild", 20)], [("caches", 2000), ("caches_rebuild", 400)]),
+ "C09": P([("caches_reopen", 40), ("caches_faults", 30), ("caches_rebuild", 40)], [("caches_reopen", 1200), ("caches_faults", 1200), ("caches_rebuild", 1200)]),
  "C10": P([("resample", 60)], [("resample", 2000), ("boundary", 10)]),
  "C11": P([("caches", 30), ("cache_sections", 12), ("caches_reopen", 10)], [("caches", 800), ("cache_sections", 150), ("caches_reopen", 300)]),
  "C12": P([("roundtrip", 40), ("reopen", 15), ("torn", 30), ("index_states", 15), ("boundary", 12), ("boundary2", 6), ("lastmeta", 16)],
@@ -30,8 +30,8 @@ PLANS = {
  "C16": P([("roundtrip", 30), ("refuse", 20), ("caches", 20), ("ranges", 10), ("reopen", 40), ("interleave", 60)], [("roundtrip", 600), ("refuse", 500), ("caches", 600), ("ranges", 300), ("interleave", 1500)]),
  "C17": P([("contract", 60), ("roundtrip", 10)], [("contract", 1500), ("roundtrip", 200)]),
  "C18": P([("corrupt", 80)], [("corrupt", 2500)]),
- "C19": P([("totality", 60), ("bigline", 6), ("cache_sections", 8), ("resample", 30)],
-          [("totality", 1500), ("bigline", 11), ("cache_sections", 60), ("resample", 300), ("contract", 200)], totality=True, op_timeout_ms=20000),
+ "C19": P([("totality", 60), ("bigline", 6), ("cache_sections", 8), ("resample", 30), ("boundary_reader", 9)],
+          [("totality", 1500), ("bigline", 11), ("cache_sections", 60), ("resample", 300), ("contract", 200), ("boundary_reader", 76), ("boundary", 38)], totality=True, op_timeout_ms=20000),
 }
 
 def opkind(op):
